@@ -6,7 +6,39 @@ HERE = os.path.dirname(os.path.abspath(__file__))
 ids = [json.loads(l)['id'] for l in open(os.path.join(HERE, 'properties.jsonl'))]
 
 # property -> (technique, level text, level note, design_ref)
+XML_NOTE = ("Trusted: Lean kernel; the reference parser lean/OdfModel/Spec/XmlParse.lean as the meaning of 'namespace-well-formed XML 1.0' "
+            "(a sub-language of XML; validated against expat on every emitted stream); the correspondence harness; CPython str/dict; expat as oracle. "
+            "Hypotheses of the theorems (TreeOK): element/attribute local names are ASCII NCNames, no unqualified attribute is called 'xmlns', "
+            "namespace names contain no filtered character, attribute keys are distinct (dict), every namespace was registered with get_nsprefix "
+            "(Element.__init__/setAttrNS always do).")
 CLAIMED = {
+ 'C01': ("Lean 4 proof: print/parse round trip of a hand-written model of the encoders and the writer against a reference XML parser; "
+         "namespace-table invariant by induction over histories; translator for the filter table and the initial nsdict; correspondence with odf/element.py",
+         "Kernel-checked: for every tree, every string as text/CDATA/attribute value, and every namespace table reachable by any history of the "
+         "process, the emitted stream is accepted by the reference XML parser (emitted_wf, emitted_wf_after_any_history; 138 obligations incl. the "
+         "lemma files). The model is tied to the code on every run: _handle_unrepresentable is probed on all 1,114,112 code points and the table the "
+         "theorems use is regenerated; the three encoders agree with the model on every code point; Element.toXml agrees byte for byte on "
+         "generated trees; get_nsprefix histories agree in fresh interpreters. Oracle: expat + UTF-8 encodability on every rendering "
+         "(toXml, xml(), the four parts, the manifest, zip members).",
+         XML_NOTE + " Part assembly (contentxml etc.) is covered by the part_assembly lemma plus the oracle on real renderings.",
+         "DESIGN.md section 4 C01"),
+ 'C02': ("Lean 4 proof: parseDoc (render tbl t) = canon t by structural induction (lexical round trip with fuel, namespace resolution round trip); "
+         "correspondence with odf/element.py; expat infoset oracle",
+         "Kernel-checked: parsing what the writer emits returns exactly the tree - same elements by (namespace, local name) in order, same "
+         "attributes with the same values, same character data - up to CDATA-vs-text, merging of adjacent character data and the library's "
+         "character filter (print_parse), and with U+FFFD only for XML-unrepresentable characters for every tree without 'discouraged' code "
+         "points (print_parse_partial). The excluded class is known finding KF-C02-1, proved as finding_discouraged and replayed on the real code "
+         "every run. Tie and oracle as C01, with the expat infoset compared against the walked in-memory tree.",
+         XML_NOTE, "DESIGN.md section 4 C02"),
+ 'C14': ("Lean 4 proof: invariant of the process-wide namespace table under every history of get_nsprefix calls (induction), history independence as a "
+         "corollary of the print/parse round trip; translator for nsdict; correspondence in fresh interpreters",
+         "Kernel-checked: after every history the declared table binds each prefix to exactly one namespace and each namespace to one prefix, "
+         "never binds the empty namespace, uses NCName prefixes other than xmlns (init0_ok by decide +kernel over the regenerated nsdict, "
+         "inv_reachable, tableOK_reachable); the parsed infoset of any tree is the same under any two reachable tables (history_independent_runs); "
+         "a known prefix inside an attribute value gets declared and bound as nsdict binds it (value_prefix_declared). The unknown-prefix case is "
+         "known finding KF-C14-1 (finding_value_prefix_unknown). Tie: prefixes and final table of random histories in fresh interpreters vs the "
+         "model; oracle: same trees serialised fresh vs after a random history (incl. loading sample packages), compared after independent parsing.",
+         XML_NOTE, "DESIGN.md section 4 C14"),
  'C17': ("Lean 4 proof over a hand-written model (induction on the encoder's recursion) + correspondence with odf/teletype.py",
          "Kernel-checked theorems for every string and every pending buffer: extractText(addTextToElement(s)) = s, "
          "also when appended to existing children and after adjacent text nodes are merged (save/load); inserted nodes never hold "
@@ -15,6 +47,23 @@ CLAIMED = {
          "library directly, on pre-filled elements and through save()+load().",
          "Trusted: Lean kernel; the correspondence harness; CPython str/int; the save/load leg relies on C02 (XML round trip) which is checked by its own property.",
          "DESIGN.md section 4 C17"),
+ 'C12': ("Lean 4 proof: state-transformer model of the seven output calls, purity and repeatability by induction over call sequences; "
+         "correspondence on call sequences; snapshot/infoset oracle",
+         "Kernel-checked for all documents and all sequences of save/write/xml/contentxml/stylesxml/metaxml/settingsxml: the document afterwards "
+         "is the original or its generator-normalised form and nothing outside office:meta changes (render_pure, queries_pure, nonmeta_pure), and "
+         "two outputs of the same kind are infoset-equal (render_repeatable). Tie: 545 call sequences per run (all 49 ordered pairs + random "
+         "sequences, 15,500 in thorough) with the model's prediction compared after every call; oracle: deep snapshot of the real document (tree, "
+         "links, queries, pictures, objects) around every call and pairwise infoset comparison of repeated outputs.",
+         "Trusted: Lean kernel; harness; expat/zipfile as oracles. The model abstracts part bodies as opaque infosets (their content is C01/C02) and child objects one level deep.",
+         "DESIGN.md section 4 C12"),
+ 'C19': ("Lean 4 proof over a model of the update loop with value-type tables measured from the code (translator) + correspondence + infoset-diff oracle",
+         "Kernel-checked for all declaration lists and all update dictionaries: update sets exactly the named fields in the attribute of their "
+         "value type and listing returns the new values (update_sets, updateOp_sets), every other attribute, field and element is unchanged "
+         "(update_frame, updateDoc_frame), unknown names are ignored, update is idempotent, listing is read-only; the measured tables equal the ODF "
+         "table for every type string. Tie: driver correspondence on 834 cases per run; oracle: listing vs an expat reference, update(out) vs a "
+         "plain load+save member by member, source bytes and mtime unchanged by listing.",
+         "Trusted: Lean kernel; harness; the load/save layer underneath is not modelled here (C04/C05), it is exercised by the oracle only.",
+         "DESIGN.md section 4 C19"),
 }
 NOT_YET = "check not built yet in this revision (planned, see DESIGN.md section 9)"
 
